@@ -424,7 +424,7 @@ def sweep_module(group):
     return src, ref
 
 
-def sweep_cases(ck, group):
+def sweep_cases(ck, group, full32=True):
     """list of (case, evaluations)"""
     cases = []
     rng = ck.rng('sweep')
@@ -435,7 +435,7 @@ def sweep_cases(ck, group):
         if bits <= 16:
             ranges = [(a, a + 10000) for a in range(-70000, 70000, 10000)]
         elif bits == 32:
-            if ck.quick or k not in ('i', 'ui', 'en'):
+            if ck.quick or not full32 or k not in ('i', 'ui', 'en'):
                 for c in (lo, hi, 0, -(1 << 31), 1 << 31, 1 << 32, -(1 << 32), 1 << 30):
                     ranges.append((c - 2000, c + 2000))
             else:
@@ -663,7 +663,8 @@ def run_config(ck, st, tree, cfgname, cflags, pool, built):
         refpath = inf['src'][:-4] + '_ref.py'
         with open(refpath, 'w') as fh:
             fh.write(swrefs[swname])
-        sw = sweep_cases(ck, group)
+        # all 2**32 values of the 32-bit types only in the default configuration (13 CPU-minutes per configuration)
+        sw = sweep_cases(ck, group, full32=(cfgname == 'default'))
         res = diff.run_cases(tree, d2, swname, [c for c, _ in sw], spec_extra=NO_CAP, ref=refpath, compare=cmp,
                              tagdir='run_%s_%s' % (cfgname, swname), timeout=5400)
         nmap = {(c['f'], c['a']): n for c, n in sw}
